@@ -87,7 +87,7 @@ type c05Case struct {
 // server result, the method and whether it carries an error.
 type c05Ann struct {
 	Method  int      `json:"method"`
-	Servers [][2]int `json:"servers"` // (method, 1 = Error != nil)
+	Servers [][2]int `json:"servers"` // (method, 1 = Error != nil); method -1 = a nil *ServerResult in the slice
 }
 
 func c05SigningTime(format string, env []byte) int64 {
@@ -119,7 +119,7 @@ func runC05(a *Args) error {
 	rng := NewRng(a.Seed)
 	prelude := "From NV Require Import Base C05_Model.\nOpen Scope string_scope.\n"
 	w := NewCaseWriter(a, "C05", prelude, "xcase", "xrun")
-	w.Rule = "every result vector over {OK,NonRevokable,Unknown,Revoked}^n (n=1..4 exhaustively; thorough adds n=5,6 exhaustively and random n<=12 with out-of-range result values) x action x validator interface x scheme x envelope format x presence of a timestamp countersignature in the unsigned attributes x position of the trust anchor in the chain (root / middle / leaf held by the listed store), plus validator errors (alone, and together with a complete result vector), answers outside the one-result-per-certificate contract without error (fewer results than certificates incl. (nil,nil) and an empty slice, more results, nil entries at every position: all must be inconclusive, none may pass or panic - a panic of Verify is recovered and recorded as an observation), per-certificate method annotations and server results with/without errors (printed into the input term), the signing time of the signed attributes against the time value the validator receives, the library-default validator, and histories of 2-4 verifications on one verifier instance while the validator's answer changes; run through the real verifier.Verify. non-trivial = revocation not skipped and (some certificate not OK, or a validator error); distinct = distinct (vector, action, validators, scheme, format, error) tuples"
+	w.Rule = "every result vector over {OK,NonRevokable,Unknown,Revoked}^n (n=1..4 exhaustively; thorough adds n=5,6 exhaustively and random n<=12 with out-of-range result values) x action x validator interface x scheme x envelope format x presence of a timestamp countersignature in the unsigned attributes x position of the trust anchor in the chain (root / middle / leaf held by the listed store), plus validator errors (alone, and together with a complete result vector), answers outside the one-result-per-certificate contract without error (fewer results than certificates incl. (nil,nil) and an empty slice, more results, nil entries at every position: all must be inconclusive, none may pass or panic - a panic of Verify is recovered and recorded as an observation), per-certificate method annotations and server results with/without errors and nil server-result entries (printed into the input term; must neither panic nor change the verdict), the signing time of the signed attributes against the time value the validator receives, the library-default validator, and histories of 2-4 verifications on one verifier instance while the validator's answer changes; run through the real verifier.Verify. non-trivial = revocation not skipped and (some certificate not OK, or a validator error); distinct = distinct (vector, action, validators, scheme, format, error) tuples"
 	w.Assumptions = []string{
 		"the verifier whose two validator fields are both nil (x_val = 4 in the model) cannot be built through the public API and is not exercised",
 		"result classes are recognised from the error text of the revocation ValidationResult (\"is revoked\", \"revocation status is unknown\", \"unable to check revocation status\")",
@@ -223,6 +223,10 @@ func runC05(a *Args) error {
 			if c.Ann != nil {
 				r.RevocationMethod = revresult.RevocationMethod(c.Ann[i].Method)
 				for j, sv := range c.Ann[i].Servers {
+					if sv[0] < 0 {
+						r.ServerResults = append(r.ServerResults, nil)
+						continue
+					}
 					sr := &revresult.ServerResult{Result: c05Result(k), Server: fmt.Sprintf("http://srv%d-%d.example", i, j), RevocationMethod: revresult.RevocationMethod(sv[0])}
 					if sv[1] == 1 {
 						sr.Result, sr.Error = revresult.ResultUnknown, errors.New("mock server error")
@@ -270,7 +274,11 @@ func runC05(a *Args) error {
 			}
 			var srv []string
 			for _, sr := range r.ServerResults {
-				srv = append(srv, CPair(CN(int64(sr.RevocationMethod)), CBool(sr.Error != nil)))
+				if sr == nil {
+					srv = append(srv, "None")
+					continue
+				}
+				srv = append(srv, CSome(CPair(CN(int64(sr.RevocationMethod)), CBool(sr.Error != nil))))
 			}
 			resTerms = append(resTerms, CSome(CApp("mk_cr", c05ResNames[k], CN(int64(r.RevocationMethod)), CList(srv))))
 		}
@@ -659,6 +667,46 @@ func runC05(a *Args) error {
 			}
 		}
 		runCase(&c05Case{N: n, Format: Pick(rng, formats), SA: rng.Bool(), Action: Pick(rng, []string{"Enforce", "Log"}), Level: Pick(rng, levels), Val: 1 + rng.Intn(3), Vec: v, Ann: ann, Anchor: rng.Intn(3)})
+	}
+	// 10. nil *ServerResult entries inside the ServerResults of a (complete) answer, at every position among 1-3 server
+	// results and as the only one, under every RevocationMethod, for every verdict class: ordinary cases - Verify must not
+	// panic (it did before /repo fix a146158) and the verdict is the one of the bare result vector
+	for n := 1; n <= 3; n++ {
+		for pat := 0; pat < 4; pat++ {
+			for at := 0; at < n; at++ {
+				for _, act := range []string{"Enforce", "Log"} {
+					v := make([]int, n)
+					for i := range v {
+						v[i] = rng.Intn(2)
+					}
+					switch pat {
+					case 1:
+						v[rng.Intn(n)] = 3
+					case 2:
+						v[rng.Intn(n)] = 2
+					case 3:
+						v[rng.Intn(n)] = 4
+					}
+					ann := make([]c05Ann, n)
+					for i := range ann {
+						ann[i].Method = rng.Intn(5)
+						for j := rng.Intn(3); j > 0; j-- {
+							ann[i].Servers = append(ann[i].Servers, [2]int{rng.Intn(5), rng.Intn(2)})
+						}
+					}
+					// certificate `at` gets a nil server result at a random position of its slice; sometimes others too
+					k := rng.Intn(len(ann[at].Servers) + 1)
+					sv := append([][2]int{}, ann[at].Servers[:k]...)
+					sv = append(sv, [2]int{-1, 0})
+					ann[at].Servers = append(sv, ann[at].Servers[k:]...)
+					if rng.Intn(3) == 0 {
+						o := rng.Intn(n)
+						ann[o].Servers = append(ann[o].Servers, [2]int{-1, 0})
+					}
+					runCase(&c05Case{N: n, Format: Pick(rng, formats), SA: rng.Bool(), Action: act, Level: Pick(rng, levels), Val: 1 + rng.Intn(3), Vec: v, Ann: ann, Anchor: rng.Intn(3)})
+				}
+			}
+		}
 	}
 	return w.Close()
 }
